@@ -83,7 +83,7 @@ func TestC25(t *testing.T) {
 	st := stats.New("C25", "exploration", ruleC25,
 		"default (machine) runtime only: the interpreter runtime trims zero-amount postings by documented design")
 	defer st.Write(t)
-	n := stats.N(3000, 20000)
+	n := stats.N(8000, 30000)
 	st.Set("requested_checks", n)
 	stats.Check(t, n, 25, func(rt *rapid.T) {
 		ps := genPostings(rt, 20)
@@ -162,7 +162,7 @@ const ruleC36E1 = "amounts from {0,1,2,99,100,2^53±1,2^63±1,2^64±1,10^30,rand
 func TestC36(t *testing.T) {
 	st := stats.New("C36", "exploration", ruleC36E1)
 	defer st.Write(t)
-	n := stats.N(2000, 10000)
+	n := stats.N(5000, 20000)
 	st.Set("requested_checks", n)
 	two53 := new(big.Int).Lsh(big.NewInt(1), 53)
 	stats.Check(t, n, 36, func(rt *rapid.T) {
